@@ -7,6 +7,11 @@
 (*            cache machine of Quadrature.tla is stepped through the recorded calls    *)
 (*            (S = set of property-level states the specification allows so far; the   *)
 (*            trace is rejected at the first call after which S is empty).             *)
+(*   "nest"   a re-entrant / aliasing history on ONE real QGauss object: [ctor, ev :   *)
+(*            Seq(event)]; the nest machine (NestSucc) is stepped through the events   *)
+(*            the same way                                                             *)
+(*   "ret"    one call whose integrand returned a given shape / representation         *)
+(*            (RetFailing)                                                             *)
 (* Rejected records are printed with the names of the failing clauses                  *)
 (* (for sequences: clause@step).                                                       *)
 EXTENDS Quadrature, Json, IOUtils
@@ -24,10 +29,13 @@ PickBlock == blk = 0 /\ tid = 0 /\ \E b \in 1..NBlocks : blk' = b /\ tid' = 0 /\
 PickTrace == blk > 0 /\ tid = 0
              /\ \E t \in ((blk - 1) * BlockSize + 1)..VMin2(blk * BlockSize, NT) :
                    /\ tid' = t /\ blk' = blk /\ l' = 0 /\ P' = {}
-                   /\ S' = IF Traces[t].k = "seq" THEN {CacheNew(Traces[t].ctor)} ELSE {}
-StepEv == /\ tid > 0 /\ Traces[tid].k = "seq" /\ l < Len(Traces[tid].ev) /\ S # {}
+                   /\ S' = IF Traces[t].k = "seq" THEN {CacheNew(Traces[t].ctor)}
+                           ELSE IF Traces[t].k = "nest" THEN {NestNew(Traces[t].ctor)} ELSE {}
+IsHist(r) == r.k = "seq" \/ r.k = "nest"
+StepEv == /\ tid > 0 /\ IsHist(Traces[tid]) /\ l < Len(Traces[tid].ev) /\ S # {}
           /\ l' = l + 1 /\ P' = S
-          /\ S' = UNION {CallSucc(s, Traces[tid].ev[l + 1]) : s \in S}
+          /\ S' = IF Traces[tid].k = "seq" THEN UNION {CallSucc(s, Traces[tid].ev[l + 1]) : s \in S}
+                   ELSE UNION {NestSucc(s, Traces[tid].ev[l + 1]) : s \in S}
           /\ UNCHANGED <<blk, tid>>
 Next == PickBlock \/ PickTrace \/ StepEv
 
@@ -35,14 +43,15 @@ FailingRec(r) ==
     IF r.k = "rule" THEN RuleFailing(r, KCapX, KCapN, NPoly)
     ELSE IF r.k = "data" THEN DataFailing(r)
     ELSE IF r.k = "tensor" THEN TensorFailing(r)
+    ELSE IF r.k = "ret" THEN RetFailing(r)
     ELSE {"unknown_record_kind"}
 
 Check == tid > 0 =>
     LET r == Traces[tid] IN
-    IF r.k = "seq"
+    IF IsHist(r)
     THEN (l > 0 /\ S = {}) =>
             PrintT(<<"REJECT", ToJson([id |-> r.id,
-                      failing |-> {CallClause(s, r.ev[l]) \o "@" \o ToString(l) : s \in P}])>>)
+                      failing |-> {(IF r.k = "seq" THEN CallClause(s, r.ev[l]) ELSE NestClause(s, r.ev[l])) \o "@" \o ToString(l) : s \in P}])>>)
     ELSE LET f == FailingRec(r)
          IN f = {} \/ PrintT(<<"REJECT", ToJson([id |-> r.id, failing |-> f])>>)
 =============================================================================
